@@ -4,6 +4,7 @@ import (
 	"fmt"
 	"go/token"
 	"go/types"
+	"os"
 	"strings"
 
 	"golang.org/x/tools/go/ssa"
@@ -105,6 +106,16 @@ func c20R1(r *Report) {
 	filesF := p.Field("tor", "Torrent", "Files")
 	nameF := p.Field("tor", "Torrent", "Name")
 	pth := fp.Params[1]
+	// the request path, or a load of the cell it lives in when a function literal captures it
+	isPth := func(v ssa.Value) bool {
+		if v == ssa.Value(pth) {
+			return true
+		}
+		if ld, ok := v.(*ssa.UnOp); ok {
+			return paramCell(ld) == pth
+		}
+		return false
+	}
 	// (a) the multi-file branch: `file = &f` stored under pth.Equal(f.Path); offset/length are file.Offset/file.Length
 	var fileAlloc ssa.Value
 	okStore := false
@@ -144,7 +155,7 @@ func c20R1(r *Report) {
 				}
 				for k, a := range c.Call.Args[:2] {
 					other := c.Call.Args[1-k]
-					if a != ssa.Value(pth) {
+					if !isPth(a) {
 						continue
 					}
 					if fv, b2 := loadedField(other); fv != nil && fv.Name() == "Path" && b2 == ssa.Value(al) {
@@ -168,7 +179,7 @@ func c20R1(r *Report) {
 				}
 				for k, a := range c.Call.Args[:2] {
 					other := c.Call.Args[1-k]
-					if a != pv {
+					if a != pv && !(pv == ssa.Value(pth) && isPth(a)) {
 						continue
 					}
 					fv, b2 := loadedField(other)
@@ -195,12 +206,111 @@ func c20R1(r *Report) {
 				return false
 			}
 			h := c.Call.StaticCallee()
+			if os.Getenv("STORDEBUG") != "" {
+				fmt.Fprintf(os.Stderr, "matchedIndex idx=%s callee=%v pkgnil=%v\n", exprStr(idx), h, h != nil && h.Pkg == nil)
+			}
+			// i := slices.IndexFunc(t.Files, func(f tor.Torfile) bool { return pth.Equal(f.Path) }); if i < 0 { … }
+			if h != nil && h.Pkg == nil && strings.HasPrefix(h.Name(), "IndexFunc") && len(c.Call.Args) == 2 || (h != nil && h.Pkg != nil && h.Pkg.Pkg.Path() == "slices" && strings.HasPrefix(h.Name(), "IndexFunc") && len(c.Call.Args) == 2) {
+				if f2, _ := loadedField(c.Call.Args[0]); f2 != filesF {
+					return false
+				}
+				mc, isMC := c.Call.Args[1].(*ssa.MakeClosure)
+				if !isMC {
+					return false
+				}
+				fn, _ := mc.Fn.(*ssa.Function)
+				if fn == nil || len(fn.Params) != 1 {
+					return false
+				}
+				isReq := func(v ssa.Value) bool {
+					// the captured request path
+					ld, isLd := v.(*ssa.UnOp)
+					if !isLd {
+						return false
+					}
+					fvv, isFV := ld.X.(*ssa.FreeVar)
+					if !isFV {
+						return false
+					}
+					for bi, x := range fn.FreeVars {
+						if x == fvv && bi < len(mc.Bindings) {
+							b := mc.Bindings[bi]
+							if b == ssa.Value(pth) {
+								return true
+							}
+							if al, isAl := b.(*ssa.Alloc); isAl {
+								for _, ref := range *al.Referrers() {
+									if st, isSt := ref.(*ssa.Store); isSt && st.Addr == ssa.Value(al) && st.Val == ssa.Value(pth) {
+										return true
+									}
+								}
+							}
+						}
+					}
+					return false
+				}
+				okCl := true
+				for _, ret := range returnsOf(fn) {
+					res := retResults(ret)
+					if b, isb := constBool(res[0]); isb && !b {
+						continue
+					}
+					ec, isC := res[0].(*ssa.Call)
+					if !isC || ec.Call.StaticCallee() == nil || ec.Call.StaticCallee().Name() != "Equal" || relPkg(ec.Call.StaticCallee()) != "path" || len(ec.Call.Args) != 2 {
+						okCl = false
+						continue
+					}
+					good := false
+					for k := 0; k < 2; k++ {
+						a, o := ec.Call.Args[k], ec.Call.Args[1-k]
+						if fvp, b2 := loadedFieldAny(o); isReq(a) && fvp != nil && fvp.Name() == "Path" {
+							if b2 == ssa.Value(fn.Params[0]) {
+								good = true
+							}
+							// the parameter spilled to a local (a struct passed by value)
+							if al, isAl := b2.(*ssa.Alloc); isAl {
+								nSt, fromParam := 0, false
+								for _, ref := range *al.Referrers() {
+									if st, isSt := ref.(*ssa.Store); isSt && st.Addr == ssa.Value(al) {
+										nSt++
+										fromParam = st.Val == ssa.Value(fn.Params[0])
+									}
+								}
+								if nSt == 1 && fromParam {
+									good = true
+								}
+							}
+						}
+					}
+					if !good {
+						okCl = false
+					}
+				}
+				if os.Getenv("STORDEBUG") != "" {
+					fmt.Fprintf(os.Stderr, "  okCl=%v at=%v\n", okCl, at)
+				}
+				if !okCl {
+					return false
+				}
+				// used only where the index is known not to be negative
+				if at == nil {
+					return false
+				}
+				for _, g := range guardsOf(at) {
+					if op, x, y, okc := cmpFact(g); okc && stripIntConv(x) == ssa.Value(c) {
+						if k, isk := constInt(y); isk && ((op == token.GEQ && k == 0) || (op == token.GTR && k == -1)) {
+							return true
+						}
+					}
+				}
+				return false
+			}
 			if h == nil || h.Blocks == nil || relPkg(h) != relPkg(fp) {
 				return false
 			}
 			var pprm ssa.Value
 			for k, a := range c.Call.Args {
-				if a == ssa.Value(pth) && k < len(h.Params) {
+				if isPth(a) && k < len(h.Params) {
 					pprm = h.Params[k]
 				}
 			}
@@ -250,7 +360,7 @@ func c20R1(r *Report) {
 				}
 				var pprm ssa.Value
 				for k, a := range x.Call.Args {
-					if a == ssa.Value(pth) && k < len(h.Params) {
+					if isPth(a) && k < len(h.Params) {
 						pprm = h.Params[k]
 					}
 				}
@@ -321,7 +431,14 @@ func c20R1(r *Report) {
 	// (b) single-file branch: under Files == nil, success needs len(pth) == 1 && pth[0] == t.Name
 	lenEq1 := edgeReq{Name: "len(pth) == 1", Match: func(cond ssa.Value, pol bool) bool {
 		bo, ok := cond.(*ssa.BinOp)
-		if !ok || !isLenOf(bo.X, pth) {
+		if !ok || !(isLenOf(bo.X, pth) || func() bool {
+			c, isC := bo.X.(*ssa.Call)
+			if !isC {
+				return false
+			}
+			bi, isB := c.Call.Value.(*ssa.Builtin)
+			return isB && bi.Name() == "len" && isPth(c.Call.Args[0])
+		}()) {
 			return false
 		}
 		k, okk := constInt(bo.Y)
@@ -342,7 +459,7 @@ func c20R1(r *Report) {
 				return false
 			}
 			ia, ok := ld.X.(*ssa.IndexAddr)
-			if !ok || ia.X != ssa.Value(pth) {
+			if !ok || !isPth(ia.X) {
 				return false
 			}
 			k, okk := constInt(ia.Index)
@@ -1533,6 +1650,13 @@ func c20FilesAfterComplete(r *Report, rule string) {
 			})
 			held = held && nMC > 0
 		}
+		if !held {
+			// the torrent comes out of a local list that was filled only with torrents that had passed the test
+			// (collected inside the tor.Range callback, read after the walk): InfoComplete never goes back to false
+			if fa, isFA := acc.Instr.(*ssa.FieldAddr); isFA {
+				held = c20FromTestedList(p, fa.X, ic)
+			}
+		}
 		key := fmt.Sprintf("%s/Files-read-after-InfoComplete", fname(f))
 		seen[key]++
 		if seen[key] > 1 {
@@ -1542,4 +1666,87 @@ func c20FilesAfterComplete(r *Report, rule string) {
 			fname(f)+" reads Torrent.Files on a path on which InfoComplete() has not yet answered true: the value may be the empty table of a torrent whose metadata completes a moment later (between this read and the test), and a multi-file torrent is then listed and served as a single file — its real files unreachable, a name that is no file listed")
 	}
 	r.Sentinel(rule+".files-reads", n, 5)
+}
+
+// c20FromTestedList: t is an element of a local slice variable every append to which (in the function or in its
+// function literals) adds a torrent on which InfoComplete() has just answered true.
+func c20FromTestedList(p *Prog, t ssa.Value, ic *ssa.Function) bool {
+	ld, ok := t.(*ssa.UnOp)
+	if !ok || ld.Op != token.MUL {
+		return false
+	}
+	ia, ok := ld.X.(*ssa.IndexAddr)
+	if !ok {
+		return false
+	}
+	// the slice value: a load of the variable's cell
+	sl, ok := ia.X.(*ssa.UnOp)
+	if !ok || sl.Op != token.MUL {
+		return false
+	}
+	cell, ok := sl.X.(*ssa.Alloc)
+	if !ok {
+		return false
+	}
+	// every store into the cell, here and through closures that capture it
+	type site struct {
+		st *ssa.Store
+	}
+	var stores []*ssa.Store
+	addStores := func(addr ssa.Value) {
+		for _, ref := range *addr.Referrers() {
+			if st, isSt := ref.(*ssa.Store); isSt && st.Addr == addr {
+				stores = append(stores, st)
+			}
+		}
+	}
+	addStores(cell)
+	for _, ref := range *cell.Referrers() {
+		mc, isMC := ref.(*ssa.MakeClosure)
+		if !isMC {
+			continue
+		}
+		fn, _ := mc.Fn.(*ssa.Function)
+		if fn == nil {
+			return false
+		}
+		for bi, b := range mc.Bindings {
+			if b == ssa.Value(cell) && bi < len(fn.FreeVars) {
+				addStores(fn.FreeVars[bi])
+			}
+		}
+	}
+	n := 0
+	for _, st := range stores {
+		if isNilConst(st.Val) {
+			continue
+		}
+		c, isC := st.Val.(*ssa.Call)
+		if !isC {
+			return false
+		}
+		bi, isB := c.Call.Value.(*ssa.Builtin)
+		if !isB || bi.Name() != "append" {
+			return false
+		}
+		els := variadicElems(c.Call.Args[1])
+		if len(els) == 0 {
+			return false
+		}
+		for _, el := range els {
+			okEl := false
+			for _, g := range guardsOf(c.Block()) {
+				g = g.norm()
+				gc, isGC := g.Cond.(*ssa.Call)
+				if isGC && g.Pol && gc.Call.StaticCallee() == ic && len(gc.Call.Args) > 0 && gc.Call.Args[0] == el {
+					okEl = true
+				}
+			}
+			if !okEl {
+				return false
+			}
+		}
+		n++
+	}
+	return n > 0
 }
